@@ -9,6 +9,7 @@
 From Coq Require Import ZArith List Lia String.
 From LT Require Import Zbase gen_Consts SigmaPrim KeyRingModel KeyRingLemmas SigmaModel SigmaLemmas.
 From LT Require Import gen_FSInputs FsModel SigmaFsAgree SigmaFsLemmas PedersenModel PedersenLemmas.
+From LT Require Import CodecModel SamplerModel ShuffleModel CutChooseModel CutChooseLemmas SkcProveModel SkcProveLemmas.
 Import ListNotations.
 Local Open Scope Z_scope.
 
@@ -60,7 +61,7 @@ Print Assumptions C03_or_second_complete.
 (* masking of a group element m with any masking value 0 <= r < q, after Finalize (th = table of h) *)
 Theorem C03_masking_complete : forall H hbits G, wf_params H hbits G -> forall h th,
   elem G h -> th = precompute h (gq G) -> forall m r raw c1 c2 c s, elem G m -> 0 <= r < gq G ->
-  mask G h th m r = Some (c1, c2) ->
+  vtmf_mask G h th m r = Some (c1, c2) ->
   mask_prove H G h th m c1 c2 r raw = Some (c, s) ->
   mask_verify H hbits G h th m c1 c2 true c s = Accept.
 Proof. exact mask_complete. Qed.
@@ -97,7 +98,7 @@ Print Assumptions C03_cp_table_prover_total.
 
 Theorem C03_masking_total : forall H hbits G, wf_params H hbits G -> forall h th,
   elem G h -> th = precompute h (gq G) -> forall m r, 0 <= r < gq G ->
-  mask G h th m r = Some (powm (gg G) r (gp G), (powm h r (gp G) * m) mod gp G).
+  vtmf_mask G h th m r = Some (powm (gg G) r (gp G), (powm h r (gp G) * m) mod gp G).
 Proof. exact mask_spec. Qed.
 Print Assumptions C03_masking_total.
 
@@ -145,11 +146,91 @@ Theorem C03_pedersen_verify_complete : forall C, wf_pcom C -> forall r ms,
 Proof. exact verify_commit. Qed.
 Print Assumptions C03_pedersen_verify_complete.
 
+(* ---- cut-and-choose proof of stack equality, VTMF encoding (TMCG_ProveStackEquality / TMCG_VerifyStackEquality) --------------
+   Hc = commitment oracle (any function), G = (p, q, g) with 1 < p, 0 < q, g^q = h^q = 1; s = any stack of at most TMCG_MAX_CARDS
+   cards that are group elements; sigma = honest secret: a bijection on the positions (a rotation when cyclic) with exponents in
+   [0,q); s2 = TMCG_MixStack(s, sigma).  For every kappa, every coin string of the prover (consumed by TMCG_CreateStackSecret in
+   every iteration) and every list of challenge bits: if the verifier returns at all, it returns true. *)
+Theorem C03_cutchoose_complete : forall Hc G h, 1 < gp G -> 0 < gq G -> powm (gg G) (gq G) (gp G) = 1 -> powm h (gq G) (gp G) = 1 ->
+  forall kappa cyclic s s2 sigma coins bits b,
+  (List.length s <= max_cards)%nat -> forallb (card_ok G) s = true ->
+  valid_secret (gq G) (List.length s) cyclic sigma -> cmix G h s sigma = Ret s2 ->
+  honest_run Hc G h kappa cyclic s s2 sigma coins bits = Ret b -> b = true.
+Proof. exact cutchoose_complete. Qed.
+Print Assumptions C03_cutchoose_complete.
+
+(* one iteration, both challenge values, for ANY honest fresh secret pi: the prover's message exists and is accepted *)
+Theorem C03_cutchoose_round_complete : forall Hc G h, 1 < gp G -> 0 < gq G -> powm (gg G) (gq G) (gp G) = 1 -> powm h (gq G) (gp G) = 1 ->
+  forall s s2 n cyclic sigma pi bit, List.length s = n -> (n <= max_cards)%nat ->
+  valid_secret (gq G) n cyclic sigma -> valid_secret (gq G) n cyclic pi -> cmix G h s sigma = Ret s2 ->
+  exists cr, prove_round Hc G h s2 sigma pi bit = Ret cr /\
+             verify_round Hc G h s s2 cyclic bit (fst cr) (secZ (snd cr)) = Ret true.
+Proof. exact round_complete. Qed.
+Print Assumptions C03_cutchoose_round_complete.
+
+(* the iterations never end in a rejection, an out-of-range access or a failed assertion: either all k are accepted, or the
+   challenge bits / the prover's coins run out (or the sampler inside TMCG_CreateStackSecret refuses, e.g. a rotation of n < 2) *)
+Theorem C03_cutchoose_outcome : forall Hc G h, 1 < gp G -> 0 < gq G -> powm (gg G) (gq G) (gp G) = 1 -> powm h (gq G) (gp G) = 1 ->
+  forall s s2 n sigma cyclic, List.length s = n -> (n <= max_cards)%nat ->
+  valid_secret (gq G) n cyclic sigma -> cmix G h s sigma = Ret s2 ->
+  forall k coins bits, honest_rounds Hc G h k cyclic s s2 sigma coins bits = Ret true \/
+    (List.length bits < k)%nat \/ exists coins', forall x, create_stack_secret cyclic n (gq G) coins' <> Ret x.
+Proof. exact rounds_outcome. Qed.
+Print Assumptions C03_cutchoose_outcome.
+
+(* what TMCG_CreateStackSecret returns is an honest secret (so the hypothesis on sigma is met by honest shufflers) *)
+Theorem C03_cutchoose_created_secret_valid : forall G, 0 < gq G -> forall cyclic n coins o ss coins',
+  create_stack_secret cyclic n (gq G) coins = Ret ((o, ss), coins') ->
+  valid_secret (gq G) n cyclic (secN ss) /\ (n <= max_cards)%nat.
+Proof. exact created_valid. Qed.
+Print Assumptions C03_cutchoose_created_secret_valid.
+
+(* ---- Groth's argument for a shuffle of known content, non-interactive (GrothSKC::Prove_noninteractive / Verify_noninteractive) ----
+   H = hash oracle (any function), C = commitment key (wf_pcom: 1 < p odd, 0 < q, |q| <= TMCG_MAX_FPOWM_T, h^q = g_i^q = 1),
+   l = l_e_nizk >= 0 (any challenge length), m = the public messages in [0,q), n = |m| >= 2 not above the key size, pi = any
+   permutation of the positions, r = the randomizer of the commitment c to the permuted messages, raws = any coin list of the
+   prover, alpha = any coin of the verifier.  Whenever the challenge e is invertible mod q (the code asserts this: e = 0 is a
+   2^-l event, docs/C03.md O-c), the verifier accepts -- with and without `optimizations`; the verifier's range rules
+   0 <= f_i, z, f_Delta_i, z_Delta < q (fix 25cc964) and the membership tests of c_d, c_a, c_Delta (fix e411aec) are part of
+   the model.  FULL theorem (no _partial): homomorphic commitments, the invariant F_i = e a_i + Delta_i, product argument. *)
+Theorem C03_skc_complete : forall H C l, wf_pcom C -> 0 <= l -> forall pi r m raws t mus opt alpha,
+  (2 <= List.length m)%nat -> (List.length m <= List.length (pc_g C))%nat -> Permutation.Permutation pi (seq 0 (List.length m)) ->
+  0 <= r < pc_q C -> msgs_ok (pc_q C) m -> 0 <= alpha ->
+  permuted pi m = Some mus ->
+  skc_prove H C l pi r m raws = Some t ->
+  (exists ei, (skc_e H C l m (skc_x H C l m) (k_cd t) (k_cDelta t) (k_ca t) * ei) mod pc_q C = 1) ->
+  skc_verify H C l (commitment C r mus) m true t opt alpha = Accept.
+Proof. exact skc_complete. Qed.
+Print Assumptions C03_skc_complete.
+
+(* the honest SKC prover never fails on honest inputs (the premise of C03_skc_complete is satisfiable for all of them) *)
+Theorem C03_skc_prover_total : forall H C l, wf_pcom C -> forall pi r m raws,
+  (2 <= List.length m)%nat -> (List.length m <= List.length (pc_g C))%nat -> Permutation.Permutation pi (seq 0 (List.length m)) ->
+  exists t mus, permuted pi m = Some mus /\ skc_prove H C l pi r m raws = Some t.
+Proof. exact skc_prove_total. Qed.
+Print Assumptions C03_skc_prover_total.
+
+(* the algebra behind it, usable on their own: Pedersen commitments are homomorphic ... *)
+Theorem C03_pedersen_homomorphic : forall C, wf_pcom C -> forall k r s la lb,
+  0 <= k -> 0 <= r -> 0 <= s -> List.length la = List.length lb -> nonneg la -> nonneg lb ->
+  (powm (commitment C r la) k (pc_p C) * commitment C s lb) mod pc_p C =
+  commitment C ((k * r + s) mod pc_q C) (map (lin k (pc_q C)) (combine la lb)).
+Proof. exact commitment_lin. Qed.
+Print Assumptions C03_pedersen_homomorphic.
+
+(* ... and the verifier's recursion over honest responses ends in e * a_n + Delta_n *)
+Theorem C03_skc_recursion : forall C e ei x, (e * ei) mod pc_q C = 1 -> forall mu d Delta n, (2 <= n)%nat -> Delta O = d O ->
+  forall ex ff fd, ex = (e * x) mod pc_q C -> (forall i, ff i = (e * mu i + d i) mod pc_q C) ->
+  (forall i, fd i = (e * lej2 C mu d Delta x n i + lej1 C d Delta n i) mod pc_q C) ->
+  F_loop C ex ei (map ff (seq 0 n)) (map fd (seq 0 (n - 1))) true 1 = (e * a_of C mu x (n - 1) + Delta (n - 1)%nat) mod pc_q C.
+Proof. exact F_loop_honest. Qed.
+Print Assumptions C03_skc_recursion.
+
 (* non-vacuity: the tiny group of KeyRingLemmas satisfies the hypotheses; 16 = 2^4 is a group element *)
 Example C03_nonvacuous_wf : wf_params dup_H 8 dup_G /\ elem dup_G 16 /\ elem dup_G 8.
 Proof. split; [exact dup_wf|]. split; vm_compute; reflexivity. Qed.
 Example C03_nonvacuous_masking :
-  mask dup_G 16 (precompute 16 11) 8 3 = Some (8, 16) /\
+  vtmf_mask dup_G 16 (precompute 16 11) 8 3 = Some (8, 16) /\
   mask_prove dup_H dup_G 16 (precompute 16 11) 8 8 16 3 7 = Some (0, 7) /\
   mask_verify dup_H 8 dup_G 16 (precompute 16 11) 8 8 16 true 0 7 = Accept.
 Proof. repeat split; vm_compute; reflexivity. Qed.
@@ -172,5 +253,34 @@ Proof.
   split; [constructor; try reflexivity; [vm_compute; discriminate|repeat constructor]|].
   split; [repeat constructor; lia|vm_compute; reflexivity].
 Qed.
+(* a concrete honest cut-and-choose run (p = 23, q = 11, g = 2, h = 16; three cards, three iterations, both challenge values):
+   the hypotheses of C03_cutchoose_complete hold and the run is accepted *)
+Definition ex_Hc (l : list vcard) : Z := fold_right (fun c a => fst c + 3 * snd c + 5 * a) 7 l.
+Definition ex_s : list vcard := [(1, 4); (8, 9); (2, 16)].
+Definition ex_sigma : vsecret := [(2%N, 3%N); (0%N, 10%N); (1%N, 0%N)].
+Definition ex_coins : list N := map N.of_nat (seq 3 240).
+Example C03_nonvacuous_cutchoose :
+  forallb (card_ok dup_G) ex_s = true /\ valid_secret 11 3 false ex_sigma /\
+  cmix dup_G 16 ex_s ex_sigma = Ret [(2, 16); (8, 8); (4, 2)] /\
+  honest_run ex_Hc dup_G 16 3 false ex_s [(2, 16); (8, 8); (4, 2)] ex_sigma ex_coins [true; false; true] = Ret true.
+Proof.
+  split; [vm_compute; reflexivity|]. split.
+  - split; [reflexivity|]. split; [|split; [repeat constructor|discriminate]].
+    change (map fst ex_sigma) with [2%N; 0%N; 1%N]. change (iota 3) with [0%N; 1%N; 2%N].
+    apply Permutation.Permutation_sym. apply (Permutation.Permutation_cons_app [2%N] [1%N] 0%N). apply Permutation.perm_swap.
+  - split; vm_compute; reflexivity.
+Qed.
+(* a concrete honest shuffle-of-known-content argument (p = 23, q = 11, three messages, l = 3): challenge e = 4 is invertible
+   mod 11, the prover's message exists and both verifier variants accept *)
+Definition ex_H (l : list Z) : Z := fold_right (fun v a => v + 3 * a) 5 l.
+Definition ex_C := mkPcom 23 11 16 [2; 4; 8].
+Definition ex_t := mkSkc 3 9 18 [2; 2; 8] 2 [2; 3] 8.
+Example C03_nonvacuous_skc :
+  permuted [2%nat; 0%nat; 1%nat] [3; 7; 10] = Some [10; 3; 7] /\
+  skc_prove ex_H ex_C 3 [2%nat; 0%nat; 1%nat] 5 [3; 7; 10] [4; 9; 6; 1; 13; 20; 8] = Some ex_t /\
+  (skc_e ex_H ex_C 3 [3; 7; 10] (skc_x ex_H ex_C 3 [3; 7; 10]) 3 9 18 * 3) mod 11 = 1 /\
+  skc_verify ex_H ex_C 3 (commitment ex_C 5 [10; 3; 7]) [3; 7; 10] true ex_t false 0 = Accept /\
+  skc_verify ex_H ex_C 3 (commitment ex_C 5 [10; 3; 7]) [3; 7; 10] true ex_t true 6 = Accept.
+Proof. repeat split; vm_compute; reflexivity. Qed.
 Example C03_nonvacuous_fs : List.length fs_agreements = 16%nat /\ In ("vsshe lambda"%string, true) fs_agreements.
 Proof. split; [reflexivity|]. vm_compute. tauto. Qed.
